@@ -133,6 +133,14 @@ def rand_job(seed):
         if rnd.random() < 0.2:
             for nm in rnd.sample(['alpha', 'Lx', 'b2', 'zz', 'Q', 'mid', 'k9'], rnd.randint(2, 4)):
                 m.insert(rnd.randint(0, len(m)), {'k': 'jump', 'label': nm, 'hasE': True, 'e': gen_jump.var('false')})
+        if rnd.random() < 0.25:
+            # statements that call a function named like an expression built-in (in scripts these names are user functions or
+            # undefined): never pointless - deleting one changes the output or the error
+            nm = rnd.choice(['max', 'len', 'abs', 'log', 'text'])
+            if rnd.random() < 0.6:
+                m.insert(0, {'k': 'function', 'name': nm, 'args': ['p'], 'last': False,
+                             'body': [{'k': 'expr', 'name': '', 'e': gen_jump.call('probe', gen_jump.num(77), gen_jump.var('p'))}]})
+            m.insert(rnd.randint(1, len(m)), {'k': 'expr', 'name': '', 'e': gen_jump.call(nm, gen_jump.num(rnd.randint(1, 3)), gen_jump.num(2))})
         return cases_for(A.gmodel(m), gen_jump.default_globals(rnd))
     prog = gen_struct.rprogram(rnd, maxdepth=rnd.choice([2, 3, 4]))
     text = '\n'.join(A.struct_text(prog)) + '\n'
